@@ -1610,6 +1610,469 @@ def gen_converter(repo):
 
 GENERATORS["ConverterGen"] = gen_converter
 
+# ---------------------------------------------------------------------------------------------------------------------------
+# mixed.py: MixedCheckpointSchedule._iterator -> coq/Model/GenLang5.v
+ZL5 = {"n0": "Ln0", "n1": "Ln1", "cp_n": "Lcp_n"}
+KL5 = {"step_type": "Lstep_type", "cp_step_type": "Lcp_step_type", "next_step_type": "Lnext_step_type"}
+BL5 = {"reuse_snapshot": "Lreuse", "cp_delete": "Lcp_delete"}
+EXN5 = ("RuntimeError", "InvalidForwardStep", "InvalidActionIndex")
+PLANNER_SELECT = ("if numba is None:\n    warnings.warn('Numba not available -- using memoization', RuntimeWarning)\n    schedule = None\nelse:\n"
+                  "    schedule = mixed_steps_tabulation(self._max_n, self._snapshots)")
+
+
+def _steptype(e):
+    return STEPK[e.attr] if isinstance(e, ast.Attribute) and isinstance(e.value, ast.Name) and e.value.id == "StepType" and e.attr in STEPK else None
+
+
+class GenTr5:
+    def z(self, e):
+        if isinstance(e, ast.Constant) and isinstance(e.value, int) and not isinstance(e.value, bool):
+            return "(ZC %d)" % e.value
+        a = _self_attr(e)
+        if a in ("_n", "_r", "_max_n", "_snapshots"):
+            return {"_n": "ZN", "_r": "ZR", "_max_n": "ZMax", "_snapshots": "ZSnaps"}[a]
+        if isinstance(e, ast.Name) and e.id in ZL5:
+            return "(ZL %s)" % ZL5[e.id]
+        if isinstance(e, ast.BinOp) and isinstance(e.op, (ast.Add, ast.Sub)):
+            return "(%s %s %s)" % ("ZAdd" if isinstance(e.op, ast.Add) else "ZSub", self.z(e.left), self.z(e.right))
+        if isinstance(e, ast.Call) and isinstance(e.func, ast.Name) and len(e.args) == 1 and not e.keywords and isinstance(e.args[0], ast.Name):
+            if e.func.id == "len" and e.args[0].id == "snapshots":
+                return "ZLenStack"
+            if e.func.id == "len" and e.args[0].id == "snapshot_n":
+                return "ZLenSet"
+            if e.func.id == "int" and e.args[0].id in BL5:
+                return "(ZInt %s)" % BL5[e.args[0].id]
+        raise Untranslatable("integer expression " + ast.dump(e)[:90])
+
+    def top(self, e, k):
+        """snapshots[-1][k] / snapshots[-1][:2]"""
+        if not (isinstance(e, ast.Subscript) and isinstance(e.value, ast.Subscript) and isinstance(e.value.value, ast.Name) and e.value.value.id == "snapshots"
+                and ast.unparse(e.value.slice) == "-1"):
+            return False
+        return ast.unparse(e.slice) == k
+
+    def b(self, e):
+        if isinstance(e, ast.Constant) and e.value is True:
+            return "BTrue"
+        if isinstance(e, ast.Name) and e.id in BL5:
+            return "(BV %s)" % BL5[e.id]
+        if isinstance(e, ast.UnaryOp) and isinstance(e.op, ast.Not):
+            return "(BNot %s)" % self.b(e.operand)
+        if isinstance(e, ast.Call) and isinstance(e.func, ast.Name) and e.func.id == "bool" and len(e.args) == 1 and not e.keywords:
+            return self.b(e.args[0])
+        if isinstance(e, ast.BoolOp):
+            nm = "BOr" if isinstance(e.op, ast.Or) else "BAnd"
+            out = self.b(e.values[-1])
+            for v in reversed(e.values[:-1]):
+                out = "(%s %s %s)" % (nm, self.b(v), out)
+            return out
+        if isinstance(e, ast.Compare) and len(e.ops) == 1:
+            op, l, r = e.ops[0], e.left, e.comparators[0]
+            if _self_attr(l) == "_max_n" and isinstance(r, ast.Constant) and r.value is None and isinstance(op, ast.Is):
+                return "BMaxIsNone"
+            if isinstance(l, ast.Name) and l.id in KL5:
+                if isinstance(op, ast.Eq) and _steptype(r):
+                    return "(BKindIs %s %s)" % (KL5[l.id], _steptype(r))
+                if isinstance(op, ast.NotEq) and isinstance(r, ast.Name) and r.id in KL5:
+                    return "(BKindNe %s %s)" % (KL5[l.id], KL5[r.id])
+                if isinstance(op, (ast.In, ast.NotIn)) and isinstance(r, ast.Set) and r.elts and all(_steptype(x) for x in r.elts):
+                    t = "(BKindIn %s [%s])" % (KL5[l.id], "; ".join(_steptype(x) for x in r.elts))
+                    return t if isinstance(op, ast.In) else "(BNot %s)" % t
+            if isinstance(op, ast.In) and isinstance(r, ast.Name) and r.id == "snapshot_n":
+                return "(BInSet %s)" % self.z(l)
+            if isinstance(op, ast.NotEq) and self.top(l, ":2") and isinstance(r, ast.Tuple) and len(r.elts) == 2 and isinstance(r.elts[0], ast.Name) and r.elts[0].id in KL5:
+                return "(BTopNe %s %s)" % (KL5[r.elts[0].id], self.z(r.elts[1]))
+            if isinstance(op, ast.Lt) and self.top(l, "2"):
+                return "(BTopEndLt %s)" % self.z(r)
+            for k, nm in ((ast.Eq, "BEq"), (ast.NotEq, "BNe"), (ast.Lt, "BLt"), (ast.Gt, "BGt"), (ast.LtE, "BLe"), (ast.GtE, "BGe")):
+                if isinstance(op, k):
+                    return "(%s %s %s)" % (nm, self.z(l), self.z(r))
+        raise Untranslatable("condition " + ast.dump(e)[:100])
+
+    def sv(self, e):
+        if _is_st_const(e):
+            return "(SC %s)" % e.attr
+        if _self_attr(e) == "_storage":
+            return "SStg"
+        raise Untranslatable("storage argument")
+
+    def bc(self, e):
+        if isinstance(e, ast.Constant) and isinstance(e.value, bool):
+            return "true" if e.value else "false"
+        raise Untranslatable("boolean constant")
+
+    def action(self, c):
+        if not (isinstance(c, ast.Call) and isinstance(c.func, ast.Name) and not c.keywords):
+            raise Untranslatable("yielded value")
+        f, a = c.func.id, c.args
+        if f == "Forward" and len(a) == 5:
+            return "(AForward %s %s %s %s %s)" % (self.z(a[0]), self.z(a[1]), self.bc(a[2]), self.bc(a[3]), self.sv(a[4]))
+        if f == "Reverse" and len(a) == 3:
+            return "(AReverse %s %s %s)" % (self.z(a[0]), self.z(a[1]), self.bc(a[2]))
+        if f in ("Copy", "Move") and len(a) == 3:
+            return "(A%s %s %s %s)" % (f, self.z(a[0]), self.sv(a[1]), self.sv(a[2]))
+        if f in ("EndForward", "EndReverse") and not a:
+            return "A" + f
+        raise Untranslatable("action " + f)
+
+    def stmts(self, body):
+        body = _strip_doc(body)
+        if not body:
+            return "SSkip"
+        parts = [self.stmt(x) for x in body]
+        out = parts[-1]
+        for x in reversed(parts[:-1]):
+            out = "(SSeq %s %s)" % (x, out)
+        return out
+
+    def plan_call(self, s):
+        """k, n | _, _ = mixed_step_memoization(a, b)   or   ... = schedule[a, b]"""
+        if not (isinstance(s, ast.Assign) and len(s.targets) == 1 and isinstance(s.targets[0], ast.Tuple) and len(s.targets[0].elts) == 3
+                and all(isinstance(x, ast.Name) for x in s.targets[0].elts)):
+            return None
+        k, n, c = (x.id for x in s.targets[0].elts)
+        if k not in KL5 or c != "_" or (n != "_" and n not in ZL5):
+            return None
+        v = s.value
+        if isinstance(v, ast.Call) and isinstance(v.func, ast.Name) and v.func.id == "mixed_step_memoization" and len(v.args) == 2 and not v.keywords:
+            a, b = v.args
+            how = "memo"
+        elif isinstance(v, ast.Subscript) and isinstance(v.value, ast.Name) and v.value.id == "schedule" and isinstance(v.slice, ast.Tuple) and len(v.slice.elts) == 2:
+            a, b = v.slice.elts
+            how = "table"
+        else:
+            return None
+        return how, "(SPlan %s %s %s %s)" % (KL5[k], "None" if n == "_" else "(Some %s)" % ZL5[n], self.z(a), self.z(b))
+
+    def stmt(self, s):
+        if isinstance(s, ast.If):
+            # `if schedule is None: <planner call> else: <table lookup>`: the two ways of asking the planner the model abstracts by cfg.plan
+            if ast.unparse(s.test) == "schedule is None" and len(s.body) == 1 and len(s.orelse) == 1:
+                a, b = self.plan_call(s.body[0]), self.plan_call(s.orelse[0])
+                if a and b and a[0] == "memo" and b[0] == "table" and a[1] == b[1]:
+                    return a[1]
+                raise Untranslatable("planner selection")
+            if ast.unparse(s) == PLANNER_SELECT:
+                return "SSkip"
+            return "(SIf %s %s %s)" % (self.b(s.test), self.stmts(s.body), self.stmts(s.orelse))
+        if isinstance(s, ast.While) and not s.orelse:
+            return "(SWhile %s %s)" % (self.b(s.test), self.stmts(s.body))
+        if isinstance(s, ast.Break):
+            return "SBreak"
+        if isinstance(s, ast.Raise) and s.cause is None:
+            nm = s.exc.func.id if isinstance(s.exc, ast.Call) and isinstance(s.exc.func, ast.Name) else getattr(s.exc, "id", None)
+            if nm in EXN5:
+                return "(SRaise %s)" % nm
+        if isinstance(s, ast.Expr) and isinstance(s.value, ast.Yield) and s.value.value is not None:
+            return "(SYield %s)" % self.action(s.value.value)
+        if isinstance(s, ast.Expr) and isinstance(s.value, ast.Call) and isinstance(s.value.func, ast.Attribute) and isinstance(s.value.func.value, ast.Name) and not s.value.keywords:
+            obj, m, a = s.value.func.value.id, s.value.func.attr, s.value.args
+            if obj == "snapshot_n" and m in ("add", "remove") and len(a) == 1:
+                return "(SSet%s %s)" % ("Add" if m == "add" else "Remove", self.z(a[0]))
+            if obj == "snapshots" and m == "pop" and not a:
+                return "SPop"
+            if obj == "snapshots" and m == "append" and len(a) == 1 and isinstance(a[0], ast.Tuple) and len(a[0].elts) == 3 and _steptype(a[0].elts[0]):
+                return "(SPush %s %s %s)" % (_steptype(a[0].elts[0]), self.z(a[0].elts[1]), self.z(a[0].elts[2]))
+        if isinstance(s, ast.AugAssign) and isinstance(s.op, ast.Add):
+            if _self_attr(s.target) in ("_n", "_r"):
+                x = "N" if _self_attr(s.target) == "_n" else "R"
+                return "(SSet%s (ZAdd Z%s %s))" % (x, x, self.z(s.value))
+            if isinstance(s.target, ast.Name) and s.target.id in ZL5:
+                return "(SSetZ %s (ZAdd (ZL %s) %s))" % (ZL5[s.target.id], ZL5[s.target.id], self.z(s.value))
+        if isinstance(s, ast.Assign) and len(s.targets) == 1:
+            t, v = s.targets[0], s.value
+            if isinstance(t, ast.Tuple) and len(t.elts) == 3 and all(isinstance(x, ast.Name) for x in t.elts) and ast.unparse(v) == "snapshots[-1]" \
+                    and t.elts[0].id in KL5 and t.elts[1].id in ZL5 and t.elts[2].id == "_":
+                return "(STop %s %s)" % (KL5[t.elts[0].id], ZL5[t.elts[1].id])
+            if isinstance(t, ast.Name):
+                if t.id == "snapshot_n" and ast.unparse(v) == "set()":
+                    return "SNewSet"
+                if t.id == "snapshots" and ast.unparse(v) == "[]":
+                    return "SNewStack"
+                if t.id in KL5 and _steptype(v):
+                    return "(SSetK %s %s)" % (KL5[t.id], _steptype(v))
+                if t.id in BL5:
+                    return "(SSetB %s %s)" % (BL5[t.id], self.b(v))
+                if t.id in ZL5:
+                    return "(SSetZ %s %s)" % (ZL5[t.id], self.z(v))
+            a = _self_attr(t)
+            if a == "_n":
+                return "(SSetN %s)" % self.z(v)
+            if a == "_exhausted" and isinstance(v, ast.Constant) and isinstance(v.value, bool):
+                return "(SSetX %s)" % ("true" if v.value else "false")
+        raise Untranslatable("statement " + ast.dump(s)[:100])
+
+
+def gen_mixed(repo):
+    _check_protocol(repo)
+    tree = ast.parse(open(os.path.join(repo, "checkpoint_schedules", "mixed.py")).read())
+    classes = {c.name: c for c in ast.walk(tree) if isinstance(c, ast.ClassDef)}
+    c = classes.get("MixedCheckpointSchedule")
+    if c is None:
+        raise Untranslatable("class MixedCheckpointSchedule")
+    ms = _methods(c)
+    f = ms.get("_iterator")
+    if f is None or [a.arg for a in f.args.args] != ["self"] or f.decorator_list:
+        raise Untranslatable("MixedCheckpointSchedule._iterator(self)")
+    for m in ("__next__", "__iter__", "finalize", "n", "r", "max_n", "is_running"):
+        if m in ms:
+            raise Untranslatable("MixedCheckpointSchedule overrides %s" % m)
+    ex = ms.get("is_exhausted")
+    exb = _strip_doc(ex.body) if ex is not None else []
+    if len(exb) != 1 or not isinstance(exb[0], ast.Return) or ast.unparse(exb[0].value) != "self._exhausted":
+        raise Untranslatable("MixedCheckpointSchedule.is_exhausted is not `return self._exhausted`")
+    fi = ms.get("__init__")
+    MX_INIT = ("self, max_n, snapshots, *, storage=StorageType.DISK",
+               "if snapshots < min(1, max_n - 1):\n    raise ValueError('Invalid number of snapshots')\nif storage not in [StorageType.RAM, StorageType.DISK]:\n"
+               "    raise ValueError('Invalid storage')\nsuper().__init__(max_n)\nself._exhausted = False\nself._snapshots = min(snapshots, max_n - 1)\nself._storage = storage")
+    if fi is None or (ast.unparse(fi.args), "\n".join(ast.unparse(x) for x in _strip_doc(fi.body))) != MX_INIT:
+        raise Untranslatable("MixedCheckpointSchedule.__init__ is not the constructor the model mirrors")
+    return "\n".join(["(* GENERATED by harness/translate.py from checkpoint_schedules/mixed.py (MixedCheckpointSchedule._iterator) -- do not edit *)",
+                      "From Coq Require Import ZArith List Bool.", "From CS Require Import Actions Mixed GenLang5 GenMixed.", "Import ListNotations.", "Open Scope Z_scope.", "",
+                      "Definition mixed_prog : stmt :=", "  %s." % GenTr5().stmts(f.body),
+                      "Lemma mixed_prog_is_model : mixed_prog = GenMixed.mixed_prog_model.", "Proof. reflexivity. Qed.", ""]) + "\n"
+
+
+GENERATORS["MixedGen"] = gen_mixed
+
+
+# ---------------------------------------------------------------------------------------------------------------------------
+# hrevolve_sequences/{revolve,disk_revolve,periodic_disk_revolve}.py: the sequence generators -> Gallina functions building the
+# flattened operation list (Model/Ops.v), in the result monad.  `sequence.insert(operation(NAME, arg))` appends one operation,
+# `sequence.insert_sequence(f(...)[.shift(k) | .remove_useless_wm()])` appends a recursively built list; statements are translated
+# with their continuation (an `if` whose branches do not all return is followed by the rest in both branches).  Recursion is
+# bounded by a fuel argument, an artefact of the embedding: the function's own recursive calls use the predecessor of its fuel,
+# calls of another generator the expression in SEQ_FUEL.
+OPN1 = {"Read_memory": "ORM", "Write_memory": "OWM", "Discard_memory": "ODM", "Read_disk": "ORD", "Write_disk": "OWD", "Discard_disk": "ODD",
+        "Write_Forward_memory": "OWFM", "Discard_Forward_memory": "ODFM"}
+OPN2 = {"Forward": "OF", "Backward": "OB"}
+SEQ_FUEL = {("disk_revolve", "revolve"): "(Z.to_nat (2 * l + 4))", ("periodic_disk_revolve", "revolve"): "(Z.to_nat (2 * l + 4))"}
+SEQ_PREAMBLE = {
+    "revolve": ("l, cm, rd, wd, fwd_cost, bwd_cost, opt_0=None",
+                "params = revolver_parameters(wd, rd, fwd_cost, bwd_cost)\nparameters = dict(params)\nif opt_0 is None:\n    opt_0 = get_opt_0_table(l, cm, fwd_cost, bwd_cost)\n"
+                "sequence = Sequence(Function('Revolve', l, cm), concat=parameters['concat'])\noperation = partial(Op, params=parameters)"),
+    "disk_revolve": ("l, cm, rd, wd, fwd_cost, bwd_cost, opt_0=None, opt_1d=None, opt_inf=None",
+                     "params = revolver_parameters(wd, rd, fwd_cost, bwd_cost)\nparameters = dict(params)\nuf = parameters['uf']\nub = parameters['ub']\nrd = parameters['rd']\nwd = parameters['wd']\n"
+                     "one_read_disk = parameters['one_read_disk']\nif opt_0 is None:\n    opt_0 = get_opt_0_table(l, cm, uf, ub)\nif opt_1d is None and (not one_read_disk):\n"
+                     "    opt_1d = get_opt_1d_table(l, cm, ub, uf, rd, one_read_disk, opt_0=opt_0)\nif opt_inf is None:\n"
+                     "    opt_inf = get_opt_inf_table(l, cm, uf, ub, rd, wd, one_read_disk, opt_0=opt_0, opt_1d=opt_1d)\n"
+                     "sequence = Sequence(Function('Disk-Revolve', l, cm), concat=parameters['concat'])\noperation = partial(Op, params=parameters)"),
+}
+REVOLVER_PARAMETERS = ("wd, rd, uf, ub",
+                       "params = {'uf': uf, 'ub': ub, 'up': 1, 'wd': wd, 'rd': rd, 'mx': None, 'one_read_disk': True, 'fast': False, 'concat': 0, 'print_table': 'None'}\nreturn params")
+# the calls the translator accepts: callee -> (positional argument names after the first two, keywords), and how they are emitted
+SEQ_CALLS = {
+    ("revolve", "revolve"): (["wd", "rd", "fwd_cost", "bwd_cost"], {"opt_0": "opt_0"}, "revolve_gen {fuel} opt_0 uf {a0} {a1}"),
+    ("disk_revolve", "disk_revolve"): (["rd", "wd", "uf", "ub"], {"opt_0": "opt_0", "opt_1d": "opt_1d", "opt_inf": "opt_inf"}, "disk_revolve_gen {fuel} opt_0 opt_inf uf rd wd {a0} {a1}"),
+    ("disk_revolve", "revolve"): (["rd", "wd", "uf", "ub"], {"opt_0": "opt_0"}, "revolve_gen {fuel} opt_0 uf {a0} {a1}"),
+}
+
+
+class SeqTr:
+    def __init__(self, fname, names, consts):
+        self.fname, self.names, self.consts = fname, dict(names), dict(consts)   # Python name -> Gallina term; names bound to a constant boolean
+        self.n = 0
+
+    def fresh(self):
+        self.n += 1
+        return "x%d_" % self.n
+
+    # an integer expression; reads of the tables are collected (left to right) as monadic binds
+    def z(self, e, binds):
+        if isinstance(e, ast.Constant) and isinstance(e.value, int) and not isinstance(e.value, bool):
+            return str(e.value) if e.value >= 0 else "(%d)" % e.value
+        if isinstance(e, ast.UnaryOp) and isinstance(e.op, ast.USub) and isinstance(e.operand, ast.Constant) and isinstance(e.operand.value, int):
+            return "(-%d)" % e.operand.value
+        if isinstance(e, ast.Name) and e.id in self.names:
+            return self.names[e.id]
+        if isinstance(e, ast.Subscript) and isinstance(e.value, ast.Name) and e.value.id == "parameters" and isinstance(e.slice, ast.Constant) and e.slice.value == "uf" and "parameters.uf" in self.names:
+            return self.names["parameters.uf"]
+        if isinstance(e, ast.BinOp) and isinstance(e.op, (ast.Add, ast.Sub, ast.Mult)):
+            a = self.z(e.left, binds)
+            b = self.z(e.right, binds)
+            return "(%s %s %s)" % (a, {ast.Add: "+", ast.Sub: "-", ast.Mult: "*"}[type(e.op)], b)
+        if isinstance(e, ast.Subscript):
+            v = e.value
+            if isinstance(v, ast.Subscript) and isinstance(v.value, ast.Name) and v.value.id == "opt_0" and "opt_0" in self.names:
+                i, j = self.z(v.slice, binds), self.z(e.slice, binds)
+                x = self.fresh()
+                binds.append("do %s <- tget opt_0 %s %s;" % (x, i, j))
+                return x
+            if isinstance(v, ast.Name) and v.id == "opt_inf" and "opt_inf" in self.names:
+                i = self.z(e.slice, binds)
+                x = self.fresh()
+                binds.append("do %s <- lget opt_inf %s;" % (x, i))
+                return x
+        if isinstance(e, ast.Call) and isinstance(e.func, ast.Name) and e.func.id == "min" and len(e.args) == 1 and not e.keywords and isinstance(e.args[0], ast.Name) and e.args[0].id in self.names:
+            x = self.fresh()
+            binds.append("do %s <- py_min %s;" % (x, self.names[e.args[0].id]))
+            return x
+        raise Untranslatable("integer expression " + ast.dump(e)[:100])
+
+    def cond(self, e, binds):
+        if isinstance(e, ast.Compare) and len(e.ops) == 1:
+            a, b = self.z(e.left, binds), self.z(e.comparators[0], binds)
+            op = e.ops[0]
+            for k, t in ((ast.Eq, "(%s =? %s)"), (ast.NotEq, "negb (%s =? %s)"), (ast.Lt, "(%s <? %s)"), (ast.Gt, "(%s >? %s)"), (ast.LtE, "(%s <=? %s)"), (ast.GtE, "(%s >=? %s)")):
+                if isinstance(op, k):
+                    return t % (a, b)
+        raise Untranslatable("condition " + ast.dump(e)[:100])
+
+    def operation(self, e, binds):
+        if not (isinstance(e, ast.Call) and isinstance(e.func, ast.Name) and e.func.id == "operation" and len(e.args) == 2 and not e.keywords
+                and isinstance(e.args[0], ast.Constant) and isinstance(e.args[0].value, str)):
+            raise Untranslatable("operation " + ast.dump(e)[:100])
+        nm, a = e.args[0].value, e.args[1]
+        if nm in OPN2 and isinstance(a, ast.List) and len(a.elts) == 2:
+            return "%s %s %s" % (OPN2[nm], self.z(a.elts[0], binds), self.z(a.elts[1], binds))
+        if nm in OPN1 and not isinstance(a, ast.List):
+            return "%s %s" % (OPN1[nm], self.z(a, binds))
+        raise Untranslatable("operation name / argument " + ast.dump(e)[:100])
+
+    def call(self, e, binds):
+        """f(...)[.shift(k) | .remove_useless_wm()] -> a term of type list op, the call bound monadically"""
+        post = None
+        if isinstance(e, ast.Call) and isinstance(e.func, ast.Attribute) and e.func.attr in ("shift", "remove_useless_wm"):
+            if e.func.attr == "shift" and len(e.args) == 1 and not e.keywords:
+                post = "shift %s" % self.z(e.args[0], binds)
+            elif e.func.attr == "remove_useless_wm" and not e.args and not e.keywords:
+                post = "remove_useless_wm"
+            else:
+                raise Untranslatable("sequence method call " + ast.dump(e)[:100])
+            e = e.func.value
+        if not (isinstance(e, ast.Call) and isinstance(e.func, ast.Name) and (self.fname, e.func.id) in SEQ_CALLS):
+            raise Untranslatable("sequence expression " + ast.dump(e)[:100])
+        pos, kws, fmt = SEQ_CALLS[(self.fname, e.func.id)]
+        if len(e.args) != 2 + len(pos) or [ast.unparse(a) for a in e.args[2:]] != pos or {k.arg: ast.unparse(k.value) for k in e.keywords} != kws:
+            raise Untranslatable("arguments of the call " + ast.unparse(e)[:120])
+        a0, a1 = self.z(e.args[0], binds), self.z(e.args[1], binds)
+        fuel = "f" if e.func.id == self.fname else SEQ_FUEL[(self.fname, e.func.id)]
+        x = self.fresh()
+        binds.append("do %s <- %s;" % (x, fmt.format(fuel=fuel, a0=a0, a1=a1)))
+        return "(%s %s)" % (post, x) if post else x
+
+    def block(self, stmts, k):
+        """k: Gallina text for what follows the block (None: nothing may follow -- the end of the function body)"""
+        if not stmts:
+            if k is None:
+                raise Untranslatable("%s: the body can end without a return" % self.fname)
+            return k
+        s, rest = stmts[0], stmts[1:]
+        if isinstance(s, ast.Return):
+            if not (isinstance(s.value, ast.Name) and s.value.id == "sequence"):
+                raise Untranslatable("return " + ast.dump(s)[:80])
+            return "Ok sequence"
+        if isinstance(s, ast.Raise):
+            exc = s.exc.func.id if isinstance(s.exc, ast.Call) and isinstance(s.exc.func, ast.Name) else None
+            if exc not in ("ValueError", "KeyError", "RuntimeError"):
+                raise Untranslatable("raise " + ast.dump(s)[:80])
+            return "Err %s" % exc
+        if isinstance(s, ast.If):
+            if isinstance(s.test, ast.Name) and s.test.id in self.consts:
+                return self.block((s.body if self.consts[s.test.id] else s.orelse) + rest, k)
+            binds = []
+            c = self.cond(s.test, binds)
+            kk = self.block(rest, k) if (rest or k is not None) else None
+            a = self.block(s.body, kk)
+            b = self.block(s.orelse, kk)
+            return " ".join(binds + ["if %s then (%s) else (%s)" % (c, a, b)])
+        if isinstance(s, ast.Expr) and isinstance(s.value, ast.Call) and isinstance(s.value.func, ast.Attribute) and isinstance(s.value.func.value, ast.Name) \
+                and s.value.func.value.id == "sequence" and len(s.value.args) == 1 and not s.value.keywords:
+            binds = []
+            if s.value.func.attr == "insert":
+                t = "[%s]" % self.operation(s.value.args[0], binds)
+            elif s.value.func.attr == "insert_sequence":
+                t = self.call(s.value.args[0], binds)
+            else:
+                raise Untranslatable("statement " + ast.dump(s)[:100])
+            return " ".join(binds + ["let sequence := sequence ++ %s in" % t, self.block(rest, k)])
+        if isinstance(s, ast.Assign) and len(s.targets) == 1 and isinstance(s.targets[0], ast.Name):
+            x, v = s.targets[0].id, s.value
+            if isinstance(v, ast.ListComp) and len(v.generators) == 1 and not v.generators[0].ifs and isinstance(v.generators[0].target, ast.Name) \
+                    and ast.unparse(v.generators[0].iter).startswith("range(") and len(v.generators[0].iter.args) == 2:
+                j = v.generators[0].target.id
+                binds = []
+                lo, hi = self.z(v.generators[0].iter.args[0], binds), self.z(v.generators[0].iter.args[1], binds)
+                if binds:
+                    raise Untranslatable("range bounds " + ast.unparse(v))
+                old = self.names.get(j)
+                self.names[j] = j
+                inner = []
+                body = self.z(v.elt, inner)
+                if old is None:
+                    del self.names[j]
+                else:
+                    self.names[j] = old
+                self.names[x] = x
+                return "do %s <- map_res (fun %s => %s Ok %s) (zrange %s %s); %s" % (x, j, " ".join(inner), body, lo, hi, self.block(rest, k))
+            if isinstance(v, ast.Call) and isinstance(v.func, ast.Name) and v.func.id == "argmin" and len(v.args) == 1 and isinstance(v.args[0], ast.Name) and v.args[0].id in self.names:
+                self.names[x] = x
+                return "do %s <- py_argmin %s; %s" % (x, self.names[v.args[0].id], self.block(rest, k))
+        if isinstance(s, ast.For) and not s.orelse and isinstance(s.target, ast.Name) and isinstance(s.iter, ast.Call) and isinstance(s.iter.func, ast.Name) \
+                and s.iter.func.id == "range" and len(s.iter.args) == 3 and ast.unparse(s.iter.args[2]) == "-1":
+            binds = []
+            start, stop = self.z(s.iter.args[0], binds), self.z(s.iter.args[1], binds)
+            if binds:
+                raise Untranslatable("range bounds " + ast.unparse(s.iter))
+            i = s.target.id
+            old = self.names.get(i)
+            self.names[i] = i
+            body = self.block(s.body, "Ok sequence")
+            if old is None:
+                del self.names[i]
+            else:
+                self.names[i] = old
+            return "do sequence <- for_down (Z.to_nat (%s - %s)) %s (fun %s sequence => %s) sequence; %s" % (start, stop, start, i, body, self.block(rest, k))
+        raise Untranslatable("statement " + ast.dump(s)[:100])
+
+
+def _seq_function(repo, mod, fname):
+    tree = ast.parse(open(os.path.join(repo, "checkpoint_schedules", "hrevolve_sequences", mod + ".py")).read())
+    fns = [n for n in tree.body if isinstance(n, ast.FunctionDef) and n.name == fname]
+    if len(fns) != 1 or fns[0].decorator_list:
+        raise Untranslatable("def %s in %s.py" % (fname, mod))
+    f = fns[0]
+    body = _strip_doc(f.body)
+    pre_args, pre_text = SEQ_PREAMBLE[fname]
+    n = len(pre_text.split("\n"))
+    k = 0
+    acc = []
+    while k < len(body) and len("\n".join(acc).split("\n")) < n:
+        acc.append(ast.unparse(body[k]))
+        k += 1
+    if ast.unparse(f.args) != pre_args or "\n".join(acc) != pre_text:
+        raise Untranslatable("%s: signature / preamble is not the one the translation assumes" % fname)
+    return body[k:]
+
+
+def _check_seq_env(repo):
+    ut = ast.parse(open(os.path.join(repo, "checkpoint_schedules", "hrevolve_sequences", "utils.py")).read())
+    rp = [n for n in ut.body if isinstance(n, ast.FunctionDef) and n.name == "revolver_parameters"]
+    if len(rp) != 1 or (ast.unparse(rp[0].args), "\n".join(ast.unparse(x) for x in _strip_doc(rp[0].body))) != REVOLVER_PARAMETERS:
+        raise Untranslatable("utils.revolver_parameters is not the dictionary the translation assumes")
+
+
+def gen_seq(repo):
+    _check_seq_env(repo)
+    rv = SeqTr("revolve", {"l": "l", "cm": "cm", "opt_0": "opt_0", "parameters.uf": "uf"}, {}).block(_seq_function(repo, "revolve", "revolve"), None)
+    dk = SeqTr("disk_revolve", {"l": "l", "cm": "cm", "opt_0": "opt_0", "opt_inf": "opt_inf", "uf": "uf", "rd": "rd", "wd": "wd"}, {"one_read_disk": True}).block(
+        _seq_function(repo, "disk_revolve", "disk_revolve"), None)
+    return "\n".join(["(* GENERATED by harness/translate.py from checkpoint_schedules/hrevolve_sequences/{revolve,disk_revolve}.py -- do not edit *)",
+                      "From Coq Require Import ZArith List Bool.", "From CS Require Import Actions Ops RevSeq SeqGenSpec.", "Import ListNotations.", "Open Scope Z_scope.", "",
+                      "Fixpoint revolve_gen (fuel : nat) (opt_0 : list (list Z)) (uf l cm : Z) : res (list op) :=", "  match fuel with O => Err OutOfFuel | S f =>",
+                      "  let sequence : list op := [] in", "  " + rv, "  end.", "",
+                      "Fixpoint disk_revolve_gen (fuel : nat) (opt_0 : list (list Z)) (opt_inf : list Z) (uf rd wd l cm : Z) : res (list op) :=", "  match fuel with O => Err OutOfFuel | S f =>",
+                      "  let sequence : list op := [] in", "  " + dk, "  end.", "",
+                      "Lemma revolve_gen_is_shape : revolve_gen = revolve_shape.", "Proof. reflexivity. Qed.",
+                      "Lemma disk_revolve_gen_is_shape : disk_revolve_gen = disk_revolve_shape.", "Proof. reflexivity. Qed.",
+                      "Lemma revolve_gen_is_model : forall fuel opt_0 uf l cm, revolve_gen fuel opt_0 uf l cm = RevSeq.revolve fuel opt_0 uf l cm.",
+                      "Proof. rewrite revolve_gen_is_shape. exact revolve_shape_is_model. Qed.",
+                      "Lemma disk_revolve_gen_is_model : forall fuel opt_0 opt_inf uf rd wd l cm, disk_revolve_gen fuel opt_0 opt_inf uf rd wd l cm = RevSeq.disk_revolve fuel opt_0 opt_inf uf rd wd l cm.",
+                      "Proof. rewrite disk_revolve_gen_is_shape. exact disk_revolve_shape_is_model. Qed.", ""]) + "\n"
+
+
+GENERATORS["SeqGen"] = gen_seq
+
 
 if __name__ == "__main__":
     repo = os.environ.get("VERIF_REPO", "/repo")
